@@ -36,6 +36,10 @@ theorem poolInv_init (nq ng max M : Nat) (h : max ≤ M) : PoolInv M (initState 
   refine ⟨by simp [initState], by simpa [initState] using h, ?_⟩
   intro b; simp [initState, State.pcAt, Pc.spawnOk]
 
+theorem poolInv_initP (ps : List Bool) (ng max M : Nat) (h : max ≤ M) : PoolInv M (initStateP ps ng max) := by
+  refine ⟨by simp [initStateP, initState], by simpa [initStateP, initState] using h, ?_⟩
+  intro b; simp [initStateP, initState, State.pcAt, Pc.spawnOk]
+
 @[simp] theorem spawnOk_ctxReady (M : Nat) (k : Pc) (c : Ctx) : (ctxReady k c).spawnOk M = (match c with | .caller _ => k.spawnOk M | _ => true) := by
   cases c <;> simp [ctxReady, Pc.spawnOk]
 @[simp] theorem spawnOk_ctxPending (M : Nat) (j : Nat) (k : Pc) (c : Ctx) : (ctxPending j k c).spawnOk M = (match c with | .caller _ => k.spawnOk M | _ => true) := by
